@@ -70,7 +70,35 @@ def withCodon {α} (s : List Char) (f : List Char → PyR α) : PyR α :=
   | .error e => .error e
   | .ok v => f v
 
+/-- codon arguments may be written `seq:TEXT` (the harness then passes a Sequence object): `str()` of it is TEXT -/
+def stripSeq (t : List Char) : List Char :=
+  match t with
+  | 's' :: 'e' :: 'q' :: ':' :: r => r
+  | _ => t
+
+def showOC : Option Char → String
+  | some c => c.toString
+  | none => "!"
+def showOB : Option Bool → String
+  | some true => "T" | some false => "F" | none => "!"
+def showOSyn : Option (List (List Char)) → String
+  | some cs => s!"{cs.length}:" ++ ",".intercalate (cs.map str)
+  | none => "!"
+
+def showAnswers (a : Answers) : String :=
+  " ".intercalate [str a.text, showOC a.trStrict, showOC a.trLoose, showOB a.stop, showOB a.strict, showOB a.canon,
+    showOB a.st0, showOB a.st1, showOB a.st11, showOSyn a.syn0, showOSyn a.syn1]
+
+def showOutcome (o : Bool × Bool) : String :=
+  if o.1 then (if o.2 then "OY" else "ON") else "X-"
+
 def ops : List (String × Op) := [
+  ("hist", do
+      let h ← pText; let sps ← pList pText
+      pure (showP (fun (r : Answers × List (Bool × Bool) × Answers × (Bool × Bool × Bool)) =>
+          let (a0, outs, a1, (x, y, z)) := r
+          s!"{showAnswers a0} | {outs.length} {" ".intercalate (outs.map showOutcome)} | {showAnswers a1} | {showOB (some x)} {showOB (some y)} {showOB (some z)}")
+        (hist (stripSeq h) (sps.map stripSeq)))),
   ("translate", do
       let s ← pText; let strict ← pBool
       pure (showP (fun (c : Char) => c.toString) (withCodon s fun v => .ok (translate v strict)))),
